@@ -60,12 +60,22 @@ func partition(line, delim string) (string, string) {
 
 }
 
+// readLine returns the next line. A last line that lacks its newline is
+// returned as it is; io.EOF is reported only when nothing is left.
+func readLine(reader *bufio.Reader) (string, error) {
+	line, err := reader.ReadString('\n')
+	if err == io.EOF && line != "" {
+		return line, nil
+	}
+	return line, err
+}
+
 func ParseOne(reader *bufio.Reader) (*ChangelogEntry, error) {
 	changeLog := ChangelogEntry{}
 
 	var header string
 	for {
-		line, err := reader.ReadString('\n')
+		line, err := readLine(reader)
 		if err != nil {
 			return nil, err
 		}
@@ -110,7 +120,11 @@ func ParseOne(reader *bufio.Reader) (*ChangelogEntry, error) {
 	var signoff string
 	/* OK, we've got the header. Let's zip down. */
 	for {
-		line, err := reader.ReadString('\n')
+		line, err := readLine(reader)
+		if err == io.EOF {
+			/* the input ends inside this entry */
+			return nil, io.ErrUnexpectedEOF
+		}
 		if err != nil {
 			return nil, err
 		}
